@@ -1,5 +1,5 @@
 """C04 — every HTTP/1.x response is well-formed, correctly delimited and byte-exact."""
-import itertools, json, os, random, re, shutil, signal, socket, subprocess, time, zlib
+import itertools, json, os, random, re, shutil, signal, socket, subprocess, sys, time, zlib
 from concurrent.futures import ThreadPoolExecutor
 from .. import common as C
 from .. import e2e
@@ -87,12 +87,15 @@ def oracle_nw(t, out):
         return "queue holds %d bytes after the socket accepted %d of %d" % (rest, n, len(want))
     if o["q"] == "-" and n != len(want):
         return "queue empty but not every byte was accepted"
-    # a schedule that never fails and is long enough must drain the queue
+    # EINTR, EAGAIN and short (non-zero) counts are all "try again": a schedule made only of them must
+    # never end the response, and unless the schedule itself runs out the whole message is delivered
     sched = [] if t[3] == "-" else t[3].split(",")
-    if o["rc"] == "0" and all(s.isdigit() and int(s) > 0 for s in sched):
-        given = sum(int(s) for s in sched)
-        if o["q"] != "-" and int(o["calls"]) < len(sched) and given >= len(want) and False:
-            return "writer stalled although the socket accepted data"
+    if all((x.isdigit() and int(x) > 0) or x in ("A", "I") for x in sched):
+        if o["rc"] != "0":
+            return "write path gave up (rc=%s) although every socket result was retryable (EINTR/EAGAIN/short)" % o["rc"]
+        nsys = 0 if o["sys"] == "-" else len(o["sys"].split(","))
+        if nsys < len(sched) and o["q"] != "-":
+            return "writer stopped with data queued although retryable results remained"
     return None
 
 
@@ -155,6 +158,15 @@ def gen_nw(ctx):
                 for k in list(range(0, total + 1, step)) + [total]:
                     for fault in ("A", "I", "0"):
                         lines.append("nw %s %d %d,%s,%s %s" % (be, mx, k, fault, ",".join(["1073741824"] * 12), " ".join(q)))
+    # retryable-only schedules (EINTR / EAGAIN / short at random places): must always end with the message delivered
+    for _ in range(1500 if ctx.quick else 30000):
+        q = [rchunk(True) for _ in range(rng.choice([1, 2, 3, 5]))]
+        sc = []
+        for _ in range(rng.randint(1, 25)):
+            r = rng.random()
+            sc.append("I" if r < 0.3 else "A" if r < 0.5 else str(rng.choice([1, 2, 3, 50, 4096, 16383, 16384, 1 << 30])))
+        sc += [str(1 << 30)] * rng.choice([0, 3, 60])
+        lines.append("nw %s %d %s %s" % (rng.choice("ws"), rng.choice([262144, 262144, 5, 16384]), ",".join(sc), " ".join(q)))
     # exhaustive: all schedules of length <= 3 (quick) / 4 over a small alphabet on a 3-chunk message
     alpha = ["0", "1", "3", "4", "6", "100", "A", "I", "V", "P", "X"]
     depth = 3 if ctx.quick else 4
@@ -498,7 +510,8 @@ server.max-keep-alive-requests = %(kareq)d
 server.max-read-idle = 10
 server.max-write-idle = 20
 server.max-connections = 64
-cgi.assign = (".sh" => "/bin/sh")
+cgi.assign = (".sh" => "/bin/sh", ".py" => "%(python)s")
+%(errhandler)s
 %(parseopts)s
 %(errdoc)s
 """
@@ -519,6 +532,76 @@ CGI = {
 
 
 ERRDOC_404 = b"<html><body>custom 404 page " + pat(9, 20000) .replace(b"<", b"(") + b"</body></html>\n"
+
+
+EH_CONF = """
+$HTTP["url"] =~ "^/e1/" { server.error-handler-404 = "/eh.html" }
+$HTTP["url"] =~ "^/e2/" { server.error-handler-404 = "/eh.sh" }
+$HTTP["url"] =~ "^/e3/" { server.error-handler = "/eh.html" }
+$HTTP["url"] =~ "^/e4/" { server.error-handler = "/eh.sh" }
+$HTTP["url"] =~ "^/e5/" { server.error-handler = "/eh404.sh" }
+$HTTP["url"] =~ "^/e6/" { server.error-handler-404 = "/eh404.sh" }
+"""
+EH_STATIC = b"<html>static error handler page " + pat(3, 300).hex().encode() + b"</html>\n"
+EH_CGI = b"<html><body>custom error page from CGI</body></html>\n"
+EH_BODY = {"e1": EH_STATIC, "e2": EH_CGI, "e3": EH_STATIC, "e4": EH_CGI, "e5": EH_CGI, "e6": EH_CGI}
+
+# a backend whose write schedule is taken from the query string: burst, dribble, pauses
+PRODUCER = r'''import os, sys, time
+q = dict(x.split("=", 1) for x in os.environ.get("QUERY_STRING", "").split("&") if "=" in x)
+seed, total = int(q.get("seed", "1")), int(q.get("total", "0"))
+data = bytes(((seed * 131 + i * 7 + i // 251) & 0xff) for i in range(total))
+def out(b):
+    while b:
+        n = os.write(1, b)
+        b = b[n:]
+head = "Content-Type: application/octet-stream\r\n"
+if q.get("cl") == "1":
+    head += "Content-Length: %d\r\n" % total
+out((head + "\r\n").encode())
+if q.get("hgap"):
+    time.sleep(int(q["hgap"]) / 1000.0)
+off = 0
+for tok in [t for t in q.get("sched", "").split(".") if t]:
+    if tok[0] == "s":
+        time.sleep(int(tok[1:]) / 1000.0)
+    elif tok[0] == "w":
+        n = min(int(tok[1:]), total - off)
+        out(data[off:off + n]); off += n
+    elif tok[0] == "r":
+        size, rest = tok[1:].split("x")
+        count, gap = rest.split("g")
+        for _ in range(int(count)):
+            n = min(int(size), total - off)
+            if n <= 0:
+                break
+            out(data[off:off + n]); off += n
+            if int(gap):
+                time.sleep(int(gap) / 1000.0)
+out(data[off:])
+'''
+
+# (total, schedule, declares Content-Length)
+PROFILES = [(200000, "w100000.r1000x100g10", 1), (150000, "w65536.r2000x20g5", 1), (140000, "w65537.r1x300g0", 1),
+            (100000, "w70000.s20.r7x200g1", 1), (200000, "w131072.s10.r8191x8g5", 1), (90000, "w60000.r500x60g3", 1),
+            (66000, "w65000.s30.r100x10g20", 1), (70000, "r1500x47g2", 1), (150000, "w100000.r1000x50g5", 0),
+            (80000, "w1.s20.w70000.s20.r333x30g4", 1), (300000, "w70000.s5.w70000.s5.r4000x30g2", 1)]
+
+
+def producer_req(rng, prof, ver=1, meth="GET", fins=(0, 1), ka10=False):
+    total, sched, cl = prof
+    seed = rng.randint(0, 250)
+    hgap = rng.choice([0, 0, 30])
+    t = "/prod.py?seed=%d&total=%d&cl=%d&hgap=%d&sched=%s" % (seed, total, cl, hgap, sched)
+    ka = 1 if ver else (1 if ka10 else 0)
+    head = meth == "HEAD"
+    q = Req(req_bytes(meth, t, ver, ["Connection: keep-alive"] if ka10 else []), 200, b"" if head else pat(seed, total), head=head,
+            ver=ver, ka=ka, kind="producer-%s-cl%d" % (meth, cl),
+            model=[mline(200, "H" if head else "G", ver, f, ka, 1 | 64, total if cl else None, total) for f in fins],
+            cl=total if cl else None)
+    if not ver and ka10 and not cl:
+        q.adaptive = True
+    return q
 
 
 def file_bytes(idx):
@@ -662,8 +745,8 @@ def check_exchange(reqs, data, closed):
     obs = []
     for i, (q, r) in enumerate(zip(reqs, rs)):
         w = "response %d (%s): " % (i, q.kind)
-        if r["status"] != q.status:
-            return w + "status %d, expected %d (out of order or wrong response?)" % (r["status"], q.status), []
+        if r["status"] not in (q.status if isinstance(q.status, tuple) else (q.status,)):
+            return w + "status %d, expected %s (out of order or wrong response?)" % (r["status"], q.status), []
         if r["version"] != (b"1.1" if q.ver else b"1.0"):
             return w + "HTTP version %r in status line" % r["version"], []
         cl = e2e.hdr(r, "content-length")
@@ -694,12 +777,12 @@ def check_exchange(reqs, data, closed):
             return w + "body differs from the expected bytes (got %d bytes, expected %d, first difference at %d, %s)" % (
                 len(r["body"]), len(body), k, r["framing"]), []
         if cl is not None:
-            if q.head or q.status == 304:
+            if q.head or r["status"] == 304:
                 if q.cl is not None and int(cl) != q.cl:
                     return w + "Content-Length %s on a bodiless response differs from the entity length %d" % (cl.decode(), q.cl), []
             elif int(cl) != len(r["body"]):
                 return w + "Content-Length differs from the body", []
-        if q.status == 204 and cl is not None:
+        if r["status"] == 204 and cl is not None:
             return w + "204 with Content-Length", []
         if te is not None and not q.ver:
             return w + "Transfer-Encoding in a response to HTTP/1.0", []
@@ -741,6 +824,15 @@ def build_docroot(srv):
     for name, (script, _, _, _) in CGI.items():
         with open(os.path.join(srv.docroot, name), "w") as f:
             f.write("#!/bin/sh\n" + script)
+    with open(os.path.join(srv.docroot, "prod.py"), "w") as f:
+        f.write(PRODUCER)
+    with open(os.path.join(srv.docroot, "eh.html"), "wb") as f:
+        f.write(EH_STATIC)
+    with open(os.path.join(srv.docroot, "eh.sh"), "w") as f:
+        f.write("#!/bin/sh\nprintf 'Content-Type: text/html\\r\\n\\r\\n'\nprintf '%s'\n" % EH_CGI.decode().replace("\n", "\\n"))
+    with open(os.path.join(srv.docroot, "eh404.sh"), "w") as f:
+        f.write("#!/bin/sh\nprintf 'Status: 404\\r\\nContent-Type: text/html\\r\\n\\r\\n'\nsleep 0.05\nprintf '%s'\n"
+                % EH_CGI.decode().replace("\n", "\\n"))
     os.makedirs(os.path.join(srv.root, "errdocs"), exist_ok=True)
     with open(os.path.join(srv.root, "errdocs", "status-404.html"), "wb") as f:
         f.write(ERRDOC_404)
@@ -759,6 +851,38 @@ def e2e_cases(ctx, variant, rng):
     nsz = len(SIZES)
     big = [i for i in range(nsz) if SIZES[i] >= 65535]
     kareq = variant["kareq"]
+    if variant.get("eh"):
+        # error handlers (static file / CGI; error-handler and error-handler-404) x HEAD/GET/POST x pipelining:
+        # a HEAD response has no body octets and the next response starts right behind its header section
+        def ehreq(meth, e, ver=1, close=False, ka10=False):
+            hd, body = [], b""
+            if meth == "POST":
+                hd, body = ["Content-Length: 10"], b"0123456789"
+            if ka10:
+                hd.append("Connection: keep-alive")
+            close = close or meth == "POST"      # (an unread request body ends keep-alive on some of these paths)
+            ka = 0 if close else (1 if ver else int(ka10))
+            q = Req(req_bytes(meth, "/%s/missing-%d" % (e, rng.randrange(1000)), ver, hd, close, body), (200, 404),
+                    b"" if meth == "HEAD" else EH_BODY[e], head=meth == "HEAD", ver=ver, ka=ka, kind="errhandler-%s-%s" % (e, meth),
+                    model=None)
+            if not ver and ka and EH_BODY[e] is EH_CGI:
+                q.adaptive = True       # a streamed CGI body to HTTP/1.0 is close-delimited
+            return q
+        es = sorted(EH_BODY)
+        for e in es:
+            cases.append(("eh-%s" % e, [ehreq("HEAD", e), static_req(1), ehreq("GET", e), ehreq("HEAD", e), static_req(2, "HEAD"),
+                                        ehreq("GET", e, close=True)], None, None))
+            cases.append(("eh10-%s" % e, [ehreq("HEAD", e, 0, ka10=True), ehreq("GET", e, 0, ka10=True), ehreq("HEAD", e, 0)], None, None))
+            cases.append(("ehpost-%s" % e, [ehreq("HEAD", e), ehreq("POST", e)], None, None))
+        mix = []
+        for _ in range(16 if ctx.quick else 60):
+            mix.append(ehreq(rng.choice(["HEAD", "HEAD", "GET"]), rng.choice(es)))
+            if rng.random() < 0.3:
+                mix.append(static_req(rng.randrange(6), rng.choice(["GET", "HEAD"])))
+        mix.append(static_req(0, close=True))
+        cases.append(("eh-pipeline-mix", mix, None, None))
+        cases.append(("eh-pipeline-mix-slow", mix, (2048, 0.2, 500, 0.0005), None))
+        return cases
     if variant.get("kaidle") == 0:
         # keep-alive switched off by configuration: every response closes the connection
         for i in (0, 1, 5, 12):
@@ -910,6 +1034,25 @@ def e2e_cases(ctx, variant, rng):
                 cases.append(("cgi-%s-%s" % (name, meth), [q, static_req(1), static_req(3, close=True)], None, None))
             else:
                 cases.append(("cgi10-%s" % name, [q], None, None))
+    # backend producers: declared Content-Length (or none) x write schedules (burst across the 64 KiB spill to a temp
+    # file, dribbles of 1..8191 bytes, pauses): the body must arrive byte-exact and as long as declared
+    profs = list(PROFILES)
+    for _ in range(2 if ctx.quick else 25):
+        total = rng.choice([66000, 100000, 180000, 262145])
+        burst = rng.choice([0, 1, 30000, 65535, 65536, 65537, 90000, 131073])
+        piece = rng.choice([1, 2, 13, 100, 999, 1000, 2000, 4096, 8191, 8192, 9000])
+        cnt = min(300, max(1, (total - burst) // piece)) if piece < 50 else rng.randint(5, 60)
+        profs.append((total, "w%d.s%d.r%dx%dg%d" % (burst, rng.choice([0, 5, 40]), piece, cnt, rng.choice([0, 1, 3, 10])), rng.choice([1, 1, 1, 0])))
+    fins_p = [1] if stream == 0 else [0, 1]
+    for k, prof in enumerate(profs):
+        q = producer_req(rng, prof, fins=fins_p)
+        cases.append(("producer-%d" % k, [q, static_req(1), static_req(3, close=True)], None if k % 3 else (4096, 0.05, 3000, 0.0003), None))
+    cases.append(("producer-head", [producer_req(rng, profs[0], meth="HEAD", fins=fins_p), static_req(1, close=True)], None, None))
+    cases.append(("producer-1.0", [producer_req(rng, profs[1], ver=0, fins=fins_p)], None, None))
+    cases.append(("producer-1.0-ka", [producer_req(rng, profs[2], ver=0, fins=fins_p, ka10=True), static_req(1, ver=0)], None, None))
+    cases.append(("producer-1.0-ka-nocl", [producer_req(rng, profs[8], ver=0, fins=fins_p, ka10=True), static_req(1, ver=0)], None, None))
+    two = [producer_req(rng, profs[5], fins=fins_p), producer_req(rng, profs[6], fins=fins_p), static_req(2, close=True)]
+    cases.append(("producer-pipeline", two, None, None))
     # Expect: 100-continue, body echoed by a CGI
     payload = pat(77, 3000)
     hdr = req_bytes("POST", "/s_echo.sh", 1, ["Content-Length: %d" % len(payload), "Expect: 100-continue"])
@@ -929,6 +1072,7 @@ def e2e_cases(ctx, variant, rng):
 
 def vname_of(v):
     return "%(backend)s/stream%(stream)d/kareq%(kareq)d/ctrls%(ctrls)d" % v + ("/kaidle0" if v.get("kaidle") == 0 else "") \
+        + ("/errhandler" if v.get("eh") else "") \
         + ("/faultshim" if v.get("shim") else "")
 
 
@@ -1182,6 +1326,8 @@ def run_e2e(ctx, only=None):
     variants = [dict(backend=b, stream=s, kareq=100, ctrls=int((b == "writev") == (s == 1))) for b in ("writev", "sendfile") for s in (0, 1, 2)]
     variants.append(dict(backend="sendfile", stream=0, kareq=2, ctrls=0))
     variants.append(dict(backend="writev", stream=1, kareq=100, ctrls=0, kaidle=0))
+    variants.append(dict(backend="sendfile", stream=0, kareq=100, ctrls=0, eh=1))
+    variants.append(dict(backend="writev", stream=1, kareq=100, ctrls=0, eh=1))
     variants[5]["strace"] = True          # count the short / EAGAIN socket writes that happen naturally
     # the same server with write/writev/sendfile made to return short / EAGAIN / EINTR (LD_PRELOAD shim)
     variants.append(dict(backend="writev", stream=1, kareq=100, ctrls=0, shim=1 + ctx.seed))
@@ -1191,6 +1337,8 @@ def run_e2e(ctx, only=None):
             variants.append(dict(backend=b, stream=st, kareq=100, ctrls=k % 2, shim=1000 + 17 * k + ctx.seed))
     for v in variants:
         v.setdefault("kaidle", 4)
+        v["python"] = sys.executable
+        v["errhandler"] = EH_CONF if v.get("eh") else ""
         v["errdoc"] = 'server.errorfile-prefix = "@ROOT@/errdocs/status-"' if v["kareq"] < 100 else ""
         v["parseopts"] = 'server.http-parseopts = ("url-ctrls-reject" => "disable")' if v["ctrls"] else ""
     if only is not None:
